@@ -35,6 +35,7 @@ Hypotheses of the `_partial` theorems = exactly the excluded regions:
 -/
 import Gossamer.Lib.C20SpecEq
 import Gossamer.Lib.C20BitfieldWeight
+import Gossamer.Lib.C20GraphSim
 namespace Gossamer.C20
 
 variable {t : Tree} {ws : List Nat}
@@ -230,6 +231,84 @@ theorem C20_bitfield_weight (ws : List Nat) (a b : BF.Words) (ph : Bool) :
 theorem C20_bitfield_refines (a b : BF.Words) (m n p : Nat) (ha : BF.Rep a m) (hb : BF.Rep b n) :
     BF.Rep [] 0 ∧ BF.Rep (BF.setBit a p) (setBit m p) ∧ BF.Rep (BF.merge a b) (m ||| n) :=
   ⟨BF.rep_empty, BF.rep_setBit ha p, BF.rep_merge ha hb⟩
+
+/-! ## layer (b): the compressed vote graph of vote_graph.go refines the uncompressed one
+
+`Lib/C20Graph*.lean` model `voteGraphEntry`, `append`, `introduceBranch`, `Insert`, `findContainingNodes`,
+`ghostFindMergePoint`, `FindGHOST`, `FindAncestor`; `RoundC` is the round running on that structure (the driver
+compares its entry dump with the real graph after every import).  `insOf t ws ops` are the votes that reach the
+graph while importing `ops` (first vote per voter and phase, target in the tree). -/
+
+/-- **Representation invariant** of the entry map, for every import history and, more generally, for every
+history of inserts: entries exist exactly for the base and the vote targets; the stored number is the block
+number; the ancestor array is the chain from the parent up to the nearest vote-node above; the cumulative vote is
+the uncompressed cumulative vote of the block; the descendants are (each once) the vote-nodes whose nearest
+vote-node above is this one; the heads are the vote-nodes without descendants. -/
+theorem C20_graph_inv (h : t.WF) (key : Nat → Nat) (ws : List Nat) (ops : List Op) :
+    GInv t (insOf t ws ops) (runC key t ws ops).graph ∧
+    ∀ (ins : Ins), (∀ p, p ∈ ins → p.1 < t.size) → GInv t ins (graphOf key t ins) := by
+  have hs := bookSim_run key t ws ops
+  refine ⟨?_, fun ins hv => graphOf_inv h key ins hv⟩
+  rw [hs.graph]
+  exact graphOf_inv h key _ hs.valid
+
+/-- **Weights**: the two rounds keep the same trackers, current weights and equivocation bits; the cumulative vote
+stored in a vote-node, and the vote `FindAncestor` accumulates for a block inside ancestor edges (the votes of
+the vote-nodes that `findContainingNodes` returns), are the uncompressed cumulative vote of that block – hence
+their weight is the paper's weight of the block (`C20_weight_eq_spec`). -/
+theorem C20_graph_weight_refines (h : t.WF) (key : Nat → Nat) (ws : List Nat) (ops : List Op) (ph : Bool) :
+    (runC key t ws ops).trk = (run t ws ops).trk ∧ (runC key t ws ops).cur = (run t ws ops).cur ∧
+    (runC key t ws ops).eqv = (run t ws ops).eqv ∧
+    (∀ B e, (runC key t ws ops).graph.entries B = some e →
+      e.cum = (run t ws ops).cum B ∧
+      nodeWeight ws (runC key t ws ops).eqv e.cum ph = weightFor t ws ops ph B) ∧
+    (∀ B R, (runC key t ws ops).graph.entries B = none →
+      (runC key t ws ops).graph.findContaining key (t.size + 1) B (t.num B) = some R →
+      (runC key t ws ops).graph.orCums R = (run t ws ops).cum B ∧
+      nodeWeight ws (runC key t ws ops).eqv ((runC key t ws ops).graph.orCums R) ph = weightFor t ws ops ph B) := by
+  have hs := bookSim_run key t ws ops
+  have inv := (C20_graph_inv h key ws ops).1
+  refine ⟨hs.trk, hs.cur, hs.eqv, ?_, ?_⟩
+  · intro B e he
+    have hc : e.cum = (run t ws ops).cum B := by rw [inv.cum B e he, hs.cum]
+    exact ⟨hc, by rw [hc, hs.eqv]; exact nodeWeight_run t ws ops ph B⟩
+  · intro B R hnone hR
+    have hN : isNode (insOf t ws ops) B = false := by
+      have := inv.nodes B; rw [hnone] at this; exact this.symm
+    obtain ⟨R', hR', _, hmem⟩ := (findContaining_spec h inv key B).2 hN
+    rw [hR] at hR'
+    have : R = R' := Option.some.inj hR'
+    subst this
+    have hc : (runC key t ws ops).graph.orCums R = (run t ws ops).cum B := by
+      rw [hs.cum]
+      apply Nat.eq_of_testBit_eq
+      intro q
+      have hfold : ((runC key t ws ops).graph.orCums R).testBit q = (Nat.testBit 0 q ||
+          R.any (fun c => match (runC key t ws ops).graph.entries c with
+            | some e => e.cum.testBit q | none => false)) :=
+        foldl_or_testBit _ q R 0
+      rw [hfold, cum_containing h inv hN R hmem q, Nat.zero_testBit, Bool.false_or]
+      apply Bool.eq_iff_iff.2
+      simp only [List.any_eq_true]
+      constructor
+      · rintro ⟨c, hc, hq⟩
+        obtain ⟨ec, hec⟩ := inv.entry_of_node ((hmem c).1 hc).1
+        rw [hec] at hq
+        exact ⟨c, hc, by rw [← inv.cum c ec hec]; exact hq⟩
+      · rintro ⟨c, hc, hq⟩
+        obtain ⟨ec, hec⟩ := inv.entry_of_node ((hmem c).1 hc).1
+        exact ⟨c, hc, by rw [hec]; simp only; rw [inv.cum c ec hec]; exact hq⟩
+    exact ⟨hc, by rw [hc, hs.eqv]; exact nodeWeight_run t ws ops ph B⟩
+
+/-- **`FindAncestor`** on the compressed graph of the round returns what `findAncestor` returns on the
+uncompressed cumulative votes of the model, with the right block number – for every condition. -/
+theorem C20_graph_ancestor_refines (h : t.WF) (key : Nat → Nat) (ws : List Nat) (ops : List Op)
+    (cond : Mask → Bool) (B : Nat) (hB : B < t.size) :
+    (runC key t ws ops).graph.findAncestor key (t.size + 1) cond (t.size + 1) B (t.num B) =
+      (findAncestor t (run t ws ops).cum B cond).map (fun X => (X, t.num X)) := by
+  have hs := bookSim_run key t ws ops
+  rw [hs.cum]
+  exact findAncestor_refines h (C20_graph_inv h key ws ops).1 key cond B hB
 
 /-! ## the excluded regions are really excluded, and the hypotheses are satisfiable -/
 
